@@ -1568,6 +1568,10 @@ class Interp:
                 return None
         if isinstance(r, ListV) and all(isinstance(x, Const) for x in r.items) and isinstance(l, Const):
             return l in r.items
+        if isinstance(r, ListV) and l in r.items:
+            return True  # the very same abstract value is an element
+        if isinstance(r, ListV) and not r.items:
+            return False
         if isinstance(r, ListV) and all(isinstance(x, ClassV) for x in r.items) and isinstance(l, ClassV):
             return l in r.items  # type(x) in [bool, int]
         if isinstance(r, ListV) and r.items and all(self.identity(l, x) is not None for x in r.items):
